@@ -295,7 +295,7 @@ func H_C15_tsig() {
 	qcopy := q.Copy()
 	_, reqMAC, gerr := TsigGenerate(qcopy, vC11Secret, "", false)
 	vAssume(gerr == nil)
-	what := vChoice("tamper", vParam("C15.tampers", 7))
+	what := vChoice("tamper", vParam("C15.tampers", 8))
 	victim := vChoice("victim", n)
 	running := reqMAC
 	var macs []string
@@ -329,6 +329,11 @@ func H_C15_tsig() {
 			pos := []int{13, 25}[vChoice("flippos", 2)] // a letter of the first owner name, the low TTL octet of the first record
 			b[pos] ^= 1 << uint(vChoice("flipbit", 8))
 		}
+		if what == 7 && i == victim { // the message ID on the wire altered after signing (the TSIG's original ID and MAC stay valid)
+			nid := vU16("wireid")
+			vAssume(nid != q.Id)
+			b[0], b[1] = byte(nid>>8), byte(nid)
+		}
 		return b
 	}
 	conn, _ := vC15Serve(q.Id, envs, vC15Fault{}, sign)
@@ -349,7 +354,7 @@ func H_C15_tsig() {
 		}
 	}
 	vObserve("tsig", what, victim, len(g.rrs), anyErr)
-	tampered := what == 1 || what == 2 || what == 4 || what == 5 || what == 6 || (what == 3 && victim > 0)
+	tampered := what == 1 || what == 2 || what == 4 || what == 5 || what == 6 || what == 7 || (what == 3 && victim > 0)
 	if !tampered {
 		vAssert(!anyErr && len(g.rrs) == n, "properly-chained-transfer-completes")
 	} else {
